@@ -32,12 +32,12 @@ type Exec struct {
 	t0    time.Time
 	// request / survey ids are chosen by the implementation from a time-seeded counter; the trace uses canonical
 	// ids 0x80000000|k for the k-th Send, translated both ways once the base has been learned from the first transmission
-	canonIDs bool
-	idBase   uint32
-	idKnown  bool
+	canonIDs           bool
+	idBase             uint32
+	idKnown            bool
 	obsEnd, prevObsEnd time.Time // when the observation of the last / the previous operation was complete: an operation starts no earlier than the previous one's observation ended
-	nsent    int
-	lastTx   []vp.TxRec // transmissions of the last observation, in the order they are listed
+	nsent              int
+	lastTx             []vp.TxRec // transmissions of the last observation, in the order they are listed
 	// PAIRv1 driven against the PAIR machine: the constant hop header is checked here and left out of the trace
 	// (hop counting itself is C01's subject): a transmitted header equal to txHdrStrip, a received header equal to
 	// rxHdrStrip are written as "-"; injectPrefix is put in front of every injected body
